@@ -396,6 +396,11 @@ func runScenario(sc scenT) result {
 			}
 			var err error
 			var ctx context.Context
+			defer func() {
+				if pv := recover(); pv != nil { // a panic inside the library call: logged, never explained by the model
+					lg.emit(event{Ev: "panic", P: p, Err: fmt.Sprint(pv)}, false)
+				}
+			}()
 			switch {
 			case p == "reader":
 				buf := make([]byte, 4)
